@@ -406,7 +406,7 @@ def confirm(v, P):
     return not (abs(rr - q) <= ulp / 2), out
 
 
-def validate(prog, rng, n, P):
+def validate(prog, rng, n, P, rep=None):
     cases = []
     for i in range(n):
         x = rng.choice([1, 2, 3, 7, 10, 22, 355, 10 ** 20 + 1, rng.randint(1, 10 ** 30)]) * rng.choice([1, -1])
@@ -416,6 +416,14 @@ def validate(prog, rng, n, P):
     mism = []
     S.BITS_MODE[:] = ['uf', 0]
     for (x, sa, d, sb), nat in zip(cases, outs):
+        if rep is not None:
+            bad = nat.startswith('PANIC')
+            if not bad:
+                ri, rs = H.parse_dec(nat)
+                bad = not py_div_check(x, sa, d, sb, ri, rs, P)
+            if bad:
+                H.probe_violation(rep, PROP, 'native (%d@%d) / (%d@%d) = %s is neither exact nor >= %d digits within half a unit' % (x, sa, d, sb, nat, P), {'kind': 'probe', 'den': d}, {'x': x, 's0': sa, 'sb': sb}, nat)
+                continue
         m = E.Machine(prog, (), [], E.Stats(), loop_bound=3000)
         try:
             r = m.call('<BigDecimal as std::ops::Div>::div', [C.dec(x, sa), C.dec(d, sb)], ['BigDecimal', 'BigDecimal'], 'BigDecimal')
@@ -481,7 +489,7 @@ def main(tier):
     rep.outside = ['denominators outside the listed set for the rounding claim (symbolic divisors make q*d non-linear)', 'numerator one in reversed forms (routes to inverse(): C12, not applicable)',
                    'non-normal float divisors (return 0; not a "zero integer or zero decimal divisor")', 'float -> decimal conversion itself (C14)']
     sys.stderr.write('[C08] %d tasks (%d denominators, %d overloads), P=%d\n' % (len(tasks), len(dens), len(ovs), P))
-    rep.validated, rep.validation_mismatches = validate(prog, rng, 100 if tier == 'quick' else 1000, P)
+    rep.validated, rep.validation_mismatches = validate(prog, rng, 100 if tier == 'quick' else 1000, P, rep)
     results = H.run_parallel(tasks, worker, progress=500)
     rep.add(results)
     findings = H.load_known_findings(PROP)
